@@ -35,6 +35,7 @@ Definition err_eqb (a b : err) : bool :=
   match a, b with
   | EHttp x, EHttp y => x =? y
   | EEscape, EEscape => true
+  | EPeek411, EHttp 411 => true
   | _, _ => false
   end.
 
@@ -44,7 +45,7 @@ Fixpoint run_cmp (C : callees) (k : kind) (s : pstate) (frags : list bytes) (cal
   match frags, calls with
   | [], [] => (Some s, true)
   | f :: fr, c :: cr =>
-      match parse C k s f with
+      match parse real C k s f with
       | (s', ms, None) =>
           match c with
           | CoMsgs ms' => if list_eqb msg_eqb ms ms' then run_cmp C k s' fr cr else (None, false)
@@ -91,7 +92,7 @@ Definition check (c : case) : bool :=
 Fixpoint transcript (C : callees) (k : kind) (s : pstate) (frags : list bytes) : list (list msg * option err) :=
   match frags with
   | [] => []
-  | f :: fr => match parse C k s f with
+  | f :: fr => match parse real C k s f with
                | (s', ms, None) => (ms, None) :: transcript C k s' fr
                | (_, ms, Some e) => [(ms, Some e)]
                end
